@@ -667,6 +667,34 @@ func step(w []string, line string) string {
 			return doRun(w)
 		case "check":
 			return doCheck(w)
+		case "incarnations":
+			// incarnations <p> <n>: p successive broker processes each create their first n message ids for
+			// one channel within one second; the id is the key of the stored message, so an id a later
+			// incarnation repeats overwrites a message acknowledged before the restart
+			seen := map[string]int{}
+			np, _ := strconv.Atoi(w[1])
+			for pi := 0; pi < np; pi++ {
+				c, err := spawn([]string{"child-ids", w[2]}, "")
+				if err != nil {
+					return "spawn-failed"
+				}
+				got := 0
+				for ln := range c.lines {
+					if strings.HasPrefix(ln, "K ") {
+						got++
+						if q, dup := seen[ln[2:]]; dup {
+							c.wait()
+							return fmt.Sprintf("repeated id=%s processes=%d,%d", ln[2:], q, pi)
+						}
+						seen[ln[2:]] = pi
+					}
+				}
+				c.wait()
+				if got == 0 {
+					return "no-ids"
+				}
+			}
+			return "distinct"
 		case "sleep":
 			ms, _ := strconv.Atoi(w[1])
 			time.Sleep(time.Duration(ms) * time.Millisecond)
@@ -679,6 +707,17 @@ func step(w []string, line string) string {
 func main() {
 	if len(os.Args) > 1 && os.Args[1] == "child-store" {
 		childStore()
+		return
+	}
+	if len(os.Args) > 1 && os.Args[1] == "child-ids" {
+		// one broker incarnation: the first n message ids it creates for one channel, all forced into
+		// the same second (a restart within a second of the previous run)
+		n, _ := strconv.Atoi(os.Args[2])
+		for i := 0; i < n; i++ {
+			id := message.NewID(message.Ssid{7, 9})
+			id.SetTime(1700000000)
+			emit("K " + vlib.Hex(id))
+		}
 		return
 	}
 	if len(os.Args) > 1 && os.Args[1] == "child-query" {
